@@ -28,6 +28,71 @@ def _hook(f, a, k):
 _hook.active = False
 
 
+def block_knob():
+    """how the read-ahead block size of the *current* DiffXReader._read_until can be varied: ('param', name) for a
+    parameter with an int default, ('attr', name) for an int class attribute the function reads, ('global', name) for
+    an int module constant it reads; None when no such knob is visible (then only the natural block size is run)"""
+    import inspect
+    import pydiffx.reader as R
+    f = getattr(R.DiffXReader, '_read_until', None)
+    if f is None:
+        return None
+    try:
+        for name, prm in inspect.signature(f).parameters.items():
+            if type(prm.default) is int and prm.default > 1:
+                return ('param', name)
+    except (TypeError, ValueError):
+        pass
+    code = getattr(f, '__code__', None)
+    for nm in (code.co_names if code else ()):
+        v = getattr(R.DiffXReader, nm, None)
+        if type(v) is int and v > 1:
+            return ('attr', nm)
+        v = vars(R).get(nm)
+        if type(v) is int and v > 1:
+            return ('global', nm)
+    return None
+
+
+class forced_block(object):
+    """context manager: DiffXReader instance `rd` reads ahead in blocks of k (k may be symbolic)"""
+
+    def __init__(self, rd, k):
+        self.rd, self.k = rd, k
+        self.knob = block_knob()
+
+    def __enter__(self):
+        import pydiffx.reader as R
+        kind, name = self.knob
+        rd, k = self.rd, self.k
+        if kind == 'param':
+            orig = rd._read_until
+
+            def wrapped(*a, **kw):
+                kw[name] = k
+                return orig(*a, **kw)
+            rd._read_until = wrapped
+        elif kind == 'attr':
+            setattr(rd, name, k)
+            if getattr(rd, name) is not k:        # pragma: no cover
+                raise RuntimeError('cannot shadow %s' % name)
+        else:
+            self.saved = vars(R)[name]
+            setattr(R, name, k)
+        return self
+
+    def call(self, *a):
+        """rd._read_until(*a) with the forced block size"""
+        return self.rd._read_until(*a)
+
+    def __exit__(self, *exc):
+        import pydiffx.reader as R
+        kind, name = self.knob
+        if kind == 'global':
+            setattr(R, name, self.saved)
+        return False
+
+
 def setup():
     if _hook not in instrument.CALL_HOOKS:
         instrument.CALL_HOOKS.append(_hook)
@@ -42,7 +107,8 @@ def ob_read_until(ctx, U):
     rd = DiffXReader(st)
     _hook.active = True
     try:
-        res = rd._read_until(b'\n', chunk_size=SInt(k))
+        with forced_block(rd, SInt(k)) as fb:
+            res = fb.call(b'\n')
     finally:
         _hook.active = False
     wit = lambda m: {'T': m.eval(st.T, True).as_long(), 'pos0': m.eval(st.pos0, True).as_long(),
@@ -96,11 +162,10 @@ def ob_bytes(ctx, ks, pads, N):
     pre, post = _file(pad, el)
     data = mk_seq(tuple(pre) + tuple(el) + tuple(post), bytes)
     rd = DiffXReader(SymStream(data))
-    orig = rd._read_until
-    rd._read_until = lambda c, chunk_size=None: orig(c, chunk_size=k)
     wit = lambda m: {'data': model_bytes(m, data), 'k': k, 'content': model_bytes(m, content), 'pad': pad}
     try:
-        recs = list(rd)
+        with forced_block(rd, k):
+            recs = list(rd)
     except PathTimeout:
         return viol('nontermination', wit(ctx.model()))
     except Exception as e:
@@ -175,9 +240,9 @@ def obligations(tier):
     from pydiffx.reader import DiffXReader
     obs = []
     quick = tier == 'quick'
-    if hasattr(DiffXReader, '_read_until'):
+    if hasattr(DiffXReader, '_read_until') and block_knob() is not None:
         U = 4 if quick else 9
-        obs.append(Ob('read_until[abstract]', ob_read_until, dict(U=U), must_reach=['DiffXReader._read_until'], allow_cut=True,
+        obs.append(Ob('read_until[abstract]', ob_read_until, dict(U=U), must_reach=['DiffXReader._read_until'], allow_cut=True, may_decline=True,
                       desc='real _read_until on the interval-abstract stream; block size k>=1, stream length, start '
                            'and delimiter position are unbounded symbolic integers; at most %d reads' % U,
                       bounds={'max_reads_per_search': U, 'k': '>=1 (symbolic)', 'T,pos0,d': 'symbolic'}))
@@ -190,7 +255,9 @@ def obligations(tier):
                            'block size forced to k; diff content symbolic',
                       bounds={'k': ks, 'pad': [pads[0], pads[-1]], 'content_len': [1, 3 if quick else 4]}))
     else:
-        obs.append(('skipped', 'read_until[abstract]', 'DiffXReader._read_until not found in the current source'))
+        obs.append(('skipped', 'read_until[abstract]', 'DiffXReader._read_until not found in the current source, or no '
+                    'parameter / constant found through which its block size can be varied; the public obligations '
+                    'below run with the implementation\'s own block size'))
     pads = list(range(0, 30)) + list(range(70, 125)) if quick else list(range(0, 300))
     obs.append(Ob('reader[public]', ob_public, dict(pads=pads, N=3 if quick else 4),
                   must_reach=['DiffXReader.iter_sections'], path_timeout=8,
@@ -211,12 +278,15 @@ def validate(tier):
     import io
     from pydiffx.reader import DiffXReader
     n = 0
+    if not hasattr(DiffXReader, '_read_until') or block_knob() is None:
+        return 0
     for data in [b'', b'abc', b'abc\ndef', b'\n', b'a\n', b'ab\ncd\nef']:
         for k in (1, 2, 3, 4, 100):
             for pos0 in range(0, len(data) + 1):
                 fp = io.BytesIO(data)
                 fp.seek(pos0)
-                exp = DiffXReader(fp)._read_until(b'\n', chunk_size=k)
+                with forced_block(DiffXReader(fp), k) as fb:
+                    exp = fb.call(b'\n')
                 exp_pos = fp.tell()
                 ctx = Ctx(())
                 Ctx.cur = ctx
@@ -228,11 +298,16 @@ def validate(tier):
                     ctx.assume(st.d == d)
                     _hook.active = True
                     try:
-                        parts, eof = DiffXReader(st)._read_until(b'\n', chunk_size=k)
+                        with forced_block(DiffXReader(st), k) as fb:
+                            parts, eof = fb.call(b'\n')
                     finally:
                         _hook.active = False
                     m = ctx.model()
                     got = b''
+                    if isinstance(parts, AbsBytes):
+                        parts = AbsParts([parts])
+                    if type(parts) is bytes and not parts:
+                        parts = AbsParts([])
                     for p in parts.parts:
                         got += data[m.eval(p.a, True).as_long():m.eval(p.b, True).as_long()]
                     got_pos = m.eval(st.pos, True).as_long()
@@ -256,7 +331,8 @@ def replay(ob, label, w):
         fp = io.BytesIO(bytes(data))
         fp.seek(pos0)
         try:
-            res, eof = DiffXReader(fp)._read_until(b'\n', chunk_size=k)
+            with forced_block(DiffXReader(fp), k) as fb:
+                res, eof = fb.call(b'\n')
         except Exception as e:
             return {'violated': True, 'signature': 'read_until:raised:%s' % type(e).__name__, 'detail': str(e)}
         end = d + 1 if d >= 0 else T
@@ -273,11 +349,12 @@ def replay(ob, label, w):
     stream = io.BytesIO(data)
     stream.seek(w.get('offset') or 0)
     rd = DiffXReader(stream)
-    if w.get('k') is not None:
-        orig = rd._read_until
-        rd._read_until = lambda c, chunk_size=None: orig(c, chunk_size=w['k'])
     try:
-        recs = list(rd)
+        if w.get('k') is not None:
+            with forced_block(rd, w['k']):
+                recs = list(rd)
+        else:
+            recs = list(rd)
     except Exception as e:
         return {'violated': True, 'signature': 'chunking:raised:%s' % type(e).__name__, 'detail': str(e)}
     ids = [r['section'] for r in recs]
